@@ -4,4 +4,5 @@ package c10
 var Registry = map[string]func([]int64){
 	"HarnessOps":        func(a []int64) { HarnessOps(int(a[0]), int(a[1])) },
 	"HarnessRevokeRace": func(a []int64) { HarnessRevokeRace(int(a[0])) },
+	"HarnessOddValues":  func(a []int64) { HarnessOddValues() },
 }
